@@ -27,6 +27,7 @@ REWRITES = {
     "R5": "`x.extend(y.iter().cloned())` -> `vec_extend_cloned(&mut x, &y)` (iterator adapters unsupported)",
     "R6": "visibility `pub(super)` / `pub(crate)` / private -> `pub`; struct fields made `pub` (open spec fns need them); #[derive(..)], #[struct_meta(..)] attributes on copied types dropped",
     "R9": "`C.iter().rev()` over a const slice literal C -> external fn C_r2_rev() whose spec is the reversed literal (semantics of slice::iter().rev() trusted)",
+    "R11": "`for x in [a, b] { BODY }` over an array literal -> unrolled blocks `{ let x = a; BODY } { let x = b; BODY }`",
     "R10": "`a | b` on two bool places (field / local reads) -> `a || b` (Verus rejects `|` on bool)",
     "R8": "`impl Trait` / `impl Fn(..)` argument position and generic closures: `to_expr: impl Fn(&FieldEntry) -> TokenStream` kept; only if listed per function",
 }
@@ -269,6 +270,26 @@ def rw_R10(t):
     return re.subn(r'(\b[a-z_]\w*(?:\.[a-z_]\w*)*) \| ([a-z_]\w*(?:\.[a-z_]\w*)*\b)(?=\s*,)', r'\1 || \2', t)
 
 
+def rw_R11(t):
+    """`for x in [a, b, ..] { BODY }` over an array literal -> `{ let x = a; BODY } { let x = b; BODY } ..` (by-value array iteration unsupported)"""
+    n = 0
+    while True:
+        m = None
+        for mm in re.finditer(r'for (\w+) in \[([^\[\]{};]+)\]\s*\{', t):
+            m = mm          # innermost-last: take the last match so nested loops unroll inside out
+        if not m:
+            break
+        mask = code_mask(t)
+        ob = m.end() - 1
+        cb = match_close(t, mask, ob)
+        body = t[ob + 1:cb]
+        elems = [e.strip() for e in m.group(2).split(',') if e.strip()]
+        rep = " ".join("{ let %s = %s; %s }" % (m.group(1), e, body) for e in elems)
+        t = t[:m.start()] + rep + t[cb + 1:]
+        n += 1
+    return t, n
+
+
 def rw_R3(t):
     """`if C {\n continue;\n }` directly in a for body -> wrap the remainder of that body."""
     n = 0
@@ -314,7 +335,7 @@ def rw_vis(t):
     return re.subn(r'\bpub\((?:super|crate)\)\s+', 'pub ', t)
 
 
-RW = {"R10": rw_R10, "R9": rw_R9, "R1": rw_R1, "R3": rw_R3, "R4": rw_R4, "R5": rw_R5, "R2u": rw_R2_uses}
+RW = {"R11": rw_R11, "R10": rw_R10, "R9": rw_R9, "R1": rw_R1, "R3": rw_R3, "R4": rw_R4, "R5": rw_R5, "R2u": rw_R2_uses}
 
 
 def _occ(text, anchor, n):
